@@ -54,3 +54,38 @@ func VerifH_C04_pool() {
 	pl.stop()
 	vf.Reach("idle")
 }
+
+// C04.L: the streamer's list of blocked streams (the heartbeat sends time-outs to exactly these)
+// stays consistent under every sequence of block / unblock operations.
+func VerifH_C04_blockedList() {
+	s := newStreamer(verifEventTimeout)
+	n := vf.Param("STREAMS", 3)
+	streams := make([]*stream, n)
+	for i := range streams {
+		streams[i] = newStream(StreamName(string(rune('a'+i))), StreamID(i), s)
+		streams[i].blockIndex = -1
+	}
+	blocked := map[int]bool{}
+	for step := 0; step < vf.Param("K", 6); step++ {
+		i := vf.Choose("stream", n)
+		if blocked[i] {
+			s.resetBlocked(streams[i])
+			delete(blocked, i)
+		} else {
+			s.makeBlocked(streams[i])
+			blocked[i] = true
+		}
+		if vf.Param("twin", 0) == 1 {
+			vf.Assert(len(s.blocked) != len(blocked), "blocked-list-size")
+			continue
+		}
+		vf.Assert(len(s.blocked) == len(blocked), "blocked-list-size")
+		for j := range blocked {
+			st := streams[j]
+			vf.Assert(st.blockIndex >= 0 && st.blockIndex < len(s.blocked) && s.blocked[st.blockIndex] == st, "blocked-stream-is-listed-at-its-index")
+		}
+		if len(blocked) == n {
+			vf.Reach("all-blocked")
+		}
+	}
+}
